@@ -1,10 +1,12 @@
 SPECIFICATION Spec
 CONSTANTS
- WordSel = {1, 2, 3, 4}
+ WordSel = {1, 2, 10, 11}
  MaxBatch = 1
  MaxDepth = 4
  OpKinds = {"iadd", "read"}
 INVARIANT ClassificationIsPerClass
 INVARIANT ClassesDiffer
+INVARIANT StatementLaterSettingWins
+INVARIANT UnprefixedNeverMoved
 CHECK_DEADLOCK FALSE
 POSTCONDITION EmitSpace
